@@ -91,6 +91,13 @@ ItemAspects(T, e, o) ==
     [] e.k = "counts" -> IF o.matched = e.matched /\ o.didnt = e.didnt /\ o.unchecked = e.unchecked
                          THEN {} ELSE {"counts"}
     [] e.k = "none" -> IF o.n = e.n THEN {} ELSE {"none.n"}
+    [] e.k = "connline" ->
+         (IF CharsOf(o.name) = ToCaps(e.ord) THEN {} ELSE {"connline.name"})
+         \cup (IF o.role = e.role THEN {} ELSE {"connline.role"})
+         \cup (IF CharsOf(o.title) = e.title THEN {} ELSE {"connline.title"})
+         \cup (IF o.open = e.open /\ o.closedmark = ~e.open THEN {} ELSE {"connline.open"})
+         \cup (IF o.n = e.n THEN {} ELSE {"connline.n"})
+         \cup (IF o.cur = e.cur THEN {} ELSE {"connline.current"})
     [] e.k \in {"info", "error"} ->
          IF e.what \in {"other", "list-unspecified"} \/ o.what = e.what THEN {} ELSE {"info"}
     [] OTHER -> {}
@@ -99,7 +106,7 @@ ItemAspects(T, e, o) ==
 RECURSIVE ItemsAspects(_, _, _)
 ItemsAspects(T, exp, obs) ==
   IF exp = <<>> THEN (IF obs = <<>> THEN {} ELSE {"shape.extra." \o Head(obs).k})
-  ELSE IF Head(exp).k = "info" /\ Head(exp).what \in {"other", "list-unspecified", "conns"} THEN {}   \* free-form output
+  ELSE IF Head(exp).k = "info" /\ Head(exp).what \in {"other", "list-unspecified"} THEN {}   \* free-form output
   ELSE IF Head(exp).k = "closed" THEN
        \* the order of the closing notices at end of input is not specified: compare the run as a set
        LET n == CHOOSE j \in 1..Len(exp) : (\A i \in 1..j : exp[i].k = "closed")
@@ -125,7 +132,10 @@ ConnsAspects(T, oc) ==
     (IF CharsOf(oc[k].name) = ConnName(T.conns[k]) THEN {} ELSE {"conns.name"})
     \cup (IF oc[k].role = T.conns[k].role THEN {} ELSE {"conns.role"})
     \cup (IF oc[k].open = T.conns[k].open THEN {} ELSE {"conns.open"})
-    \cup (IF oc[k].n = T.conns[k].n THEN {} ELSE {"conns.n"}) : k \in 1..Len(oc)}
+    \cup (IF oc[k].n = T.conns[k].n THEN {} ELSE {"conns.n"})
+    \cup (IF "appid" \in DOMAIN oc[k] THEN (IF CharsOf(oc[k].appid) = T.conns[k].appid THEN {} ELSE {"conns.appid"}) ELSE {})
+    \cup (IF "title" \in DOMAIN oc[k] THEN (IF CharsOf(oc[k].title) = T.conns[k].title THEN {} ELSE {"conns.title"}) ELSE {})
+    : k \in 1..Len(oc)}
 
 \* od: Seq([id, objs : Seq([type, alive, ct, dt])]) for connection k
 DbAspects(d, od) ==
